@@ -346,6 +346,92 @@ def Fl.toBits (ff : FloatFmt) (f : Fl) : Nat :=
   else if f.mant < 2 ^ (ff.p - 1) then sign + f.mant
   else sign + ((f.exp - ff.emin).toNat + 1) * 2 ^ (ff.p - 1) + (f.mant - 2 ^ (ff.p - 1))
 
+/-! ## (c') typed tokens: jsontext.Int / Uint / Float / Float32 and the accessors on them -/
+
+/-- A jsontext.Token of kind number: raw text from a Decoder (or the global `zeroNumber`), or the exact form
+`Token{str: "i"|"u"|"f"|"F", num}`.  A float32 token is stored widened (exactly) to the value it denotes. -/
+inductive Tok where
+  | raw (buf : Bytes)
+  | int (num : UInt64)                 -- str "i": num = uint64(n), n ≠ 0
+  | uint (num : UInt64)                -- str "u": num ≠ 0
+  | float (f : Fl) (is32 : Bool)       -- str "f" / "F": finite, not +0
+  deriving Repr
+
+/-- jsontext.Int: `if n == 0 { return zeroNumber }; Token{str: "i", num: uint64(n)}`. -/
+def mkInt (n : Int) : Tok := if n == 0 then .raw [48] else .int (Int64.ofInt n).toUInt64
+
+/-- jsontext.Uint. -/
+def mkUint (n : Nat) : Tok := if n == 0 then .raw [48] else .uint (UInt64.ofNat n)
+
+/-- jsontext.Float for a finite value: `+0` is `zeroNumber`, everything else (also `-0`) is exact. -/
+def mkFloat (f : Fl) (is32 : Bool) : Tok :=
+  if f.isZero && !f.neg then .raw [48]
+  else if f.isZero then .float f false        -- Float32(±0) goes through Float(float64(n))
+  else .float f is32
+
+/-- `math.Trunc(f) == f` for a non-NaN value. -/
+def Fl.isIntegral (f : Fl) : Bool :=
+  f.inf || decide (f.exp ≥ 0) || f.mant % 2 ^ (-f.exp).toNat == 0
+
+/-- Token.Int, all number forms (token.go `func (t Token) Int()`). -/
+def tokInt (pf : Bytes → Fl) : Tok → Int × NumErr
+  | .raw buf => tokenInt pf buf
+  | .int num => (num.toInt64.toInt, .none)                              -- case 'i': int64(t.num)
+  | .uint num =>                                                        -- case 'u'
+    if num > 9223372036854775807 then (2 ^ 63 - 1, .range) else (num.toInt64.toInt, .none)
+  | .float f _ =>                                                       -- case 'f', 'F'
+    let i := f64toi64 f
+    if !f.isIntegral then (i, .syntax)
+    -- (i64 == minInt64 && f64 < minInt64) || (i64 == maxInt64 && f64 >= maxInt64+1)
+    else if (i == -(2 ^ 63) && f.neg && f.absGt (2 ^ 63)) || (i == 2 ^ 63 - 1 && !f.neg && f.absGe (2 ^ 63)) then (i, .range)
+    else (i, .none)
+
+/-- Token.Uint, all number forms. -/
+def tokUint (pf : Bytes → Fl) : Tok → Nat × NumErr
+  | .raw buf => tokenUint pf buf
+  | .uint num => (num.toNat, .none)
+  | .int num => if num.toInt64 < 0 then (0, .syntax) else (num.toNat, .none)
+  | .float f _ =>
+    let u := f64tou64 f
+    if !f.isIntegral || f.neg then (u, .syntax)                         -- math.Signbit(f64): also -0
+    -- (u64 == minUint64 && f64 < minUint64) || (u64 == maxUint64 && f64 >= maxUint64+1); the first cannot hold here
+    else if u == 2 ^ 64 - 1 && f.absGe (2 ^ 64) then (u, .range)
+    else (u, .none)
+
+/-- Round a dyadic value to a binary format (Go's float64→float32 and int→float conversions: nearest, ties to even). -/
+def roundFl (ff : FloatFmt) (f : Fl) : Fl :=
+  if f.inf then f else
+  if f.mant == 0 then ⟨f.neg, false, 0, ff.emin⟩ else
+  let (m, e, ovf) := if f.exp ≥ 0 then roundRat ff (f.mant * 2 ^ f.exp.toNat) 1 else roundRat ff f.mant (2 ^ (-f.exp).toNat)
+  if ovf then ⟨f.neg, true, 0, 0⟩ else ⟨f.neg, false, m, e⟩
+
+/-- token.go `func (t Token) float(bits int)`: the float64 it returns, and the error class. -/
+def tokFloatBits (pf64 pf32 : Bytes → Fl) (bits32 : Bool) : Tok → Fl × NumErr
+  | .raw buf => tokenFloat (if bits32 then pf32 else pf64) buf
+  | .float f true => (f, .none)                                         -- case 'F'
+  | .float f false =>                                                   -- case 'f'
+    if bits32 && !f.inf && (roundFl fmt32 f).inf then (f, .range) else (f, .none)
+  | .int num => (roundFl fmt64 ⟨decide (num.toInt64 < 0), false, num.toInt64.toInt.natAbs, 0⟩, .none)   -- float64(int64(t.num))
+  | .uint num => (roundFl fmt64 ⟨false, false, num.toNat, 0⟩, .none)                                   -- float64(uint64(t.num))
+
+/-- Token.Float. -/
+def tokFloat64 (pf64 pf32 : Bytes → Fl) (t : Tok) : Fl × NumErr := tokFloatBits pf64 pf32 false t
+
+/-- Token.Float32: `f, err := t.float(32); return float32(f), err` (a second rounding for 'i', 'u', 'f'). -/
+def tokFloat32 (pf64 pf32 : Bytes → Fl) (t : Tok) : Fl × NumErr :=
+  let (f, e) := tokFloatBits pf64 pf32 true t
+  (roundFl fmt32 f, e)
+
+/-- Decode an IEEE-754 bit pattern (finite values and infinities; NaN is not a number token). -/
+def Fl.ofBits (ff : FloatFmt) (bits : Nat) : Fl :=
+  let expBits := if ff.p == 53 then 11 else 8
+  let neg := bits / 2 ^ (expBits + ff.p - 1) % 2 == 1
+  let be := bits / 2 ^ (ff.p - 1) % 2 ^ expBits
+  let frac := bits % 2 ^ (ff.p - 1)
+  if be == 2 ^ expBits - 1 then ⟨neg, true, 0, 0⟩
+  else if be == 0 then ⟨neg, false, frac, ff.emin⟩
+  else ⟨neg, false, 2 ^ (ff.p - 1) + frac, ff.emin + (be : Int) - 1⟩
+
 /-! ## (e) jsonwire.ReformatNumber (after ConsumeNumber succeeded on `src[:n]`) -/
 
 def maxExactIntegerDigits : Nat := JsonV.Gen.jsonwire.c_ReformatNumber_maxExactIntegerDigits
